@@ -18,6 +18,16 @@ def handleTL1 : OpHandler := fun st op args =>
         let w1b := if hasBoxed d ty then outBytes (writeTL1 d fuel ty false [] v) else "n/a"
         some s!"ok {bs.length - rest.length} w1={w1} w1b={w1b}"
     | _, _, _ => some "bad-op"
+  | "cert", [sid, ty] =>
+    -- T3: decidable hypotheses of the TL1 theorems, evaluated on the descriptor the kernel exported, on the
+    -- reference-closed set of instances reachable from `ty`
+    match st.lookup sid, ty.toNat? with
+    | some sc, some ty =>
+      let d := sc.desc
+      let S := d.reach ty
+      let b (x : Bool) : String := if x then "1" else "0"
+      some s!"ok closed={b (d.closed S)} wf={b d.wf} productive={b (d.productive d.computeRanks)} rt={b (d.allOn S (Inst.rtOk d))} min4={b (d.allOn S (Inst.elemMin4 d))} nodict={b (d.allOn S (fun i => !i.isDict))} nobit={b (d.allOn S (fun i => !i.isBitPrim))}"
+    | _, _ => some "bad-op"
   | _, _ => none
 
 end TLVerif.Codec
